@@ -1,7 +1,8 @@
 #!/usr/bin/env python3
 """Apply every seeded change to /repo in turn (undoing it straight afterwards), run all quick checks, and record which checks
 report a violation: seeded/matrix.json.  Evidence written during these runs goes to a scratch directory."""
-import json, os, subprocess, sys, glob
+import json, os, re, subprocess, sys, glob
+import concurrent.futures as cf
 ALL = ["C%02d" % i for i in range(1, 21)]
 only = sys.argv[1:]
 st = subprocess.run(["git", "-C", "/repo", "status", "--porcelain"], capture_output=True, text=True).stdout.strip()
@@ -13,7 +14,7 @@ if os.path.exists(mpath) and only:
     mat = json.load(open(mpath))
 for d in sorted(glob.glob("/verif/seeded/C*-m*")):
     name = os.path.basename(d)
-    if only and name not in only and name.split("-")[0] not in only:
+    if only and name not in only and name.split("-")[0] not in only and not any(o.startswith("re:") and re.search(o[3:], name) for o in only):
         continue
     patch = os.path.join(d, "patch.diff")
     r = subprocess.run(["git", "-C", "/repo", "apply", patch])
@@ -22,9 +23,13 @@ for d in sorted(glob.glob("/verif/seeded/C*-m*")):
         continue
     row = {}
     try:
-        for pid in ALL:
-            p = subprocess.run(["/verif/check", pid, "quick"], capture_output=True, text=True, cwd="/verif",
-                               env=dict(os.environ, PCV_EVIDENCE_DIR="/tmp/pcv-evidence-scratch"))
+        def one(pid):
+            return pid, subprocess.run(["/verif/check", pid, "quick"], capture_output=True, text=True, cwd="/verif",
+                                       env=dict(os.environ, PCV_EVIDENCE_DIR="/tmp/pcv-evidence-scratch"))
+        first = [one(ALL[0])]          # builds the facts for this tree once; the others reuse the cache
+        with cf.ThreadPoolExecutor(10) as ex:
+            rest = list(ex.map(one, ALL[1:]))
+        for pid, p in first + rest:
             rules = sorted(set(l.split("rule=")[1].split(" ")[0] for l in p.stdout.splitlines() if l.strip().startswith("rule=")))
             if p.returncode == 1:
                 row[pid] = rules
